@@ -84,6 +84,7 @@ macro "install_cases" R:ident op:ident c:ident : tactic => `(tactic| (
   | uninstall => simp [isInstall, hk, mkStep]
   | plant => simp [isInstall, hk, mkStep]
   | rmexe => simp [isInstall, hk, mkStep]
+  | rminterp => simp [isInstall, hk, mkStep]
   | install =>
     cases hn : specNew $op with
     | none => simp [isInstall, hk, mkStep, hn]
@@ -112,6 +113,7 @@ macro "step_shapes" R:ident op:ident c:ident : tactic => `(tactic| (
     simp only []
     by_cases hv : validName (Op.name $op) = true <;> simp [hv, mkStep, isInstall, hk]
   | rmexe => simp [mkStep, isInstall, hk]
+  | rminterp => simp [mkStep, isInstall, hk]
   | install =>
     cases hn : specNew $op with
     | none => simp [mkStep, isInstall, hk]
@@ -181,6 +183,14 @@ theorem specStep1_root_mem (R : List PluginObs) (op : Op) (p : PluginObs) (hp : 
     · have : q.name = op.name := by simpa using hn
       exact Or.inr (Or.inr (by simp [touches, hk, hn, this]))
     · simp only [hn]; exact Or.inr (Or.inl hq)
+  | rminterp =>
+    simp only [hk, mkStep, List.mem_map] at hp
+    obtain ⟨q, hq, rfl⟩ := hp
+    unfold rminterpObs
+    by_cases hn : (q.name == op.name) = true
+    · have : q.name = op.name := by simpa using hn
+      exact Or.inr (Or.inr (by simp [touches, hk, hn, this]))
+    · simp only [hn]; exact Or.inr (Or.inl hq)
 
 theorem spec_answers (R : List PluginObs) (op : Op) : cAnswers (R, op, specStep1 R op) = true := by
   unfold cAnswers
@@ -203,6 +213,7 @@ theorem spec_refusalClass (R : List PluginObs) (op : Op) : cRefusalClass (R, op,
     simp only []
     by_cases hv : validName op.name = true <;> simp [hv, mkStep]
   | rmexe => simp [mkStep]
+  | rminterp => simp [mkStep]
   | install =>
     cases hn : specNew op with
     | none => simp [isInstall, hk, mkStep, hn]
@@ -518,6 +529,7 @@ theorem refused_is_noop (st : State) (op : Op) (h : (step st op).1.err ≠ .ok) 
     · simp [hv]
   | plant => simp [step, hk] at h
   | rmexe => simp [step, hk] at h
+  | rminterp => simp [step, hk] at h
 
 /-- the usual case - the source lies outside the plugin root: exactly unchanged -/
 theorem refused_is_noop_outside (st : State) (op : Op) (ho : op.srcIn = [])
@@ -806,7 +818,8 @@ theorem step_state_cases (st : State) (op : Op) :
     (∃ nw, specNew op = some nw ∧ op.kind = .install ∧ (step st op).2 = replace (touchSt st op) nw) ∨
     (op.kind = .plant ∧ validName op.name = true ∧
       (step st op).2 = putBy Plugin.name ⟨op.name, topFiles op.entries⟩ (delBy Plugin.name op.name st)) ∨
-    (op.kind = .rmexe ∧ (step st op).2 = rmexe st op.name) := by
+    (op.kind = .rmexe ∧ (step st op).2 = rmexe st op.name) ∨
+    (op.kind = .rminterp ∧ (step st op).2 = rminterp st op.name) := by
   cases hk : op.kind with
   | install =>
     simp only [step, hk, install, install1, locate_eq_spec]
@@ -833,7 +846,8 @@ theorem step_state_cases (st : State) (op : Op) :
     · simp only [hv, Bool.not_true, Bool.false_eq_true, if_false]
       refine Or.inr (Or.inr (Or.inr (Or.inl ?_))); simp
     · simp [hv]
-  | rmexe => exact Or.inr (Or.inr (Or.inr (Or.inr ⟨rfl, by simp [step, hk]⟩)))
+  | rmexe => exact Or.inr (Or.inr (Or.inr (Or.inr (Or.inl ⟨rfl, by simp [step, hk]⟩))))
+  | rminterp => exact Or.inr (Or.inr (Or.inr (Or.inr (Or.inr ⟨rfl, by simp [step, hk]⟩))))
 
 /-- members of the touched state: the same directory, possibly with one more executable bit,
 answering exactly what it answered -/
@@ -894,7 +908,7 @@ theorem wf_step {st : State} (h : WFState st) (op : Op) : WFState (step st op).2
   obtain ⟨hs, hp⟩ := h
   have hdel : ∀ (s : State) (n : Text), WFState s → WFState (delBy Plugin.name n s) := fun s n hw =>
     ⟨sorted_delBy Plugin.name _ hw.1, fun p hm => hw.2 p (List.mem_filter.1 hm).1⟩
-  rcases step_state_cases st op with h | ⟨n, h⟩ | ⟨nw, hn, _, h⟩ | ⟨_, hv, h⟩ | ⟨_, h⟩
+  rcases step_state_cases st op with h | ⟨n, h⟩ | ⟨nw, hn, _, h⟩ | ⟨_, hv, h⟩ | ⟨_, h⟩ | ⟨_, h⟩
   · rw [h]; exact ht
   · rw [h]; exact hdel st n ⟨hs, hp⟩
   · rw [h]
@@ -929,6 +943,33 @@ theorem wf_step {st : State} (h : WFState st) (op : Op) : WFState (step st op).2
       split
       · exact ⟨h1, sorted_delBy File.name _ h2⟩
       · exact ⟨h1, h2⟩
+  · rw [h]
+    unfold rminterp
+    have hbn : ∀ g : File, (breakInterp g).name = g.name := by
+      intro g; unfold breakInterp
+      cases g.script with
+      | none => rfl
+      | some sc => by_cases hi : sc.interp = true <;> simp [hi]
+    constructor
+    · unfold Sorted
+      rw [List.pairwise_map]
+      refine List.Pairwise.imp ?_ hs
+      intro a b hab
+      have hn : ∀ q : Plugin, (if (q.name == op.name) = true then
+          { q with files := q.files.map breakInterp } else q).name = q.name := by
+        intro q; split <;> rfl
+      rw [hn, hn]; exact hab
+    · intro p hmem
+      obtain ⟨q, hq, rfl⟩ := List.mem_map.1 hmem
+      obtain ⟨h1, h2⟩ := hp q hq
+      split
+      · refine ⟨h1, ?_⟩
+        unfold Sorted
+        rw [List.pairwise_map]
+        refine List.Pairwise.imp ?_ h2
+        intro a b hab
+        rw [hbn, hbn]; exact hab
+      · exact ⟨h1, h2⟩
 
 /-- **invariant over operation sequences** (induction on the sequence, any length) -/
 theorem wf_finalState : ∀ (ops : List Op) {st : State}, WFState st → WFState (finalState st ops) := by
@@ -951,7 +992,7 @@ theorem healthy_step (st : State) (op : Op) (p : Plugin) (hp : p ∈ (step st op
     fun {q} hq => ⟨q, hq, rfl, rfl⟩
   have touched : p ∈ touchSt st op → ∃ q ∈ st, q.name = p.name ∧ answer q = answer p := by
     intro h; obtain ⟨q, hq, h1, h2, _⟩ := mem_touchSt h; exact ⟨q, hq, h1, h2⟩
-  rcases step_state_cases st op with h | ⟨n, h⟩ | ⟨nw, hn, _, h⟩ | ⟨hk, hv, h⟩ | ⟨hk, h⟩
+  rcases step_state_cases st op with h | ⟨n, h⟩ | ⟨nw, hn, _, h⟩ | ⟨hk, hv, h⟩ | ⟨hk, h⟩ | ⟨hk, h⟩
   · rw [h] at hp; exact Or.inr (Or.inl (touched hp))
   · rw [h] at hp; exact Or.inr (Or.inl (same (List.mem_filter.1 hp).1))
   · rw [h] at hp
@@ -962,6 +1003,12 @@ theorem healthy_step (st : State) (op : Op) (p : Plugin) (hp : p ∈ (step st op
     rcases mem_putBy Plugin.name hp with rfl | hp
     · exact Or.inr (Or.inr (by simp [touches, hk]))
     · exact Or.inr (Or.inl (same (List.mem_filter.1 hp).1))
+  · rw [h] at hp
+    obtain ⟨q, hq, rfl⟩ := List.mem_map.1 hp
+    by_cases hn : (q.name == op.name) = true
+    · have : q.name = op.name := by simpa using hn
+      exact Or.inr (Or.inr (by simp [touches, hk, hn, this]))
+    · simp only [hn]; exact Or.inr (Or.inl (same hq))
   · rw [h] at hp
     obtain ⟨q, hq, rfl⟩ := List.mem_map.1 hp
     by_cases hn : (q.name == op.name) = true
@@ -1018,7 +1065,7 @@ example : (["1.0", "v1.0.0", "01.0.0", "", "1.0.0-01", "1.0.0+", "1.0.0-a..b", "
 example : (["0.0.0", "1.0.0-0a", "1.0.0--", "1.0.0-a.-.b+001", "1.2.3-rc.1+b.7"].map
     (fun s => isValid (t s))) = [true, true, true, true, true] := by decide
 
-private def sFoo (v : String) : Script := ⟨t "foo", t v, true⟩
+private def sFoo (v : String) : Script := ⟨t "foo", t v, true, false⟩
 private def exeFoo (v : String) (cid : Nat) (exe : Bool := true) : Entry :=
   ⟨.file, t "notation-foo", exe, false, cid, some (sFoo v), []⟩
 private def extra (n : String) (cid : Nat) : Entry := ⟨.file, t n, false, false, cid, none, []⟩
@@ -1036,11 +1083,11 @@ example : errs (seq [instFile "1.0.0" 1, instFile "1.1.0-alpha" 2, instFile "1.1
     [.ok, .ok, .equalVersion, .downgrade, .ok, .other, .ok, .notExist] := by decide
 example : versions (seq [instFile "1.0.0" 1, instFile "1.1.0-alpha" 2, instFile "1.0.1" 4, instFile "1.0.1" 5 true]) =
     [[some (t "1.0.0")], [some (t "1.1.0-alpha")], [some (t "1.1.0-alpha")], [some (t "1.0.1")]] := by decide
-private def fo (n : String) (cid : Nat) (exe : Bool) (gox : Bool := false) : FileObs := ⟨t n, cid, exe, gox⟩
+private def fo (n : String) (cid : Nat) (exe : Bool) (gox : Bool := false) (ip : Bool := false) : FileObs := ⟨t n, cid, exe, gox, ip⟩
 private def nf (n : String) (exe : Bool) (cid : Nat) (sc : Option Script) : File := ⟨t n, exe, false, cid, sc⟩
 private def sub (n : String) (cid : Nat) (fs : List File) : Entry := ⟨.dir, t n, false, false, cid, none, fs⟩
 private def exeBar (exe : Bool) (cid : Nat) : Entry :=
-  ⟨.file, t "notation-bar", exe, false, cid, some ⟨t "bar", t "1.0.0", true⟩, []⟩
+  ⟨.file, t "notation-bar", exe, false, cid, some ⟨t "bar", t "1.0.0", true, false⟩, []⟩
 
 -- a directory: exactly the regular top-level files, in listing order; the single
 -- non-executable candidate is made executable although `zlib.so` sorts after it
@@ -1102,7 +1149,7 @@ example : Holds (seq [plantFoo [extra "libfoo-1.so" 1], instDir [exeFoo "1.0.0" 
      false, false, none⟩ = false := by decide
 /-- a malfunctioning existing plugin (its executable is there but does not answer) is kept
 without overwrite and replaced with overwrite; deleting only the binary makes it "absent" -/
-example : errs (seq [plantFoo [⟨.file, t "notation-foo", true, false, 1, some ⟨t "foo", t "1.0.0", false⟩, []⟩],
+example : errs (seq [plantFoo [⟨.file, t "notation-foo", true, false, 1, some ⟨t "foo", t "1.0.0", false, false⟩, []⟩],
     instFile "2.0.0" 2, instFile "2.0.0" 3 true, ⟨.rmexe, t "foo", false, false, [], [], false, []⟩, instFile "1.0.0" 4]) =
     [.ok, .other, .ok, .ok, .ok] := by decide
 
@@ -1150,6 +1197,26 @@ example : (run (seq [instFile "2.0.0" 1, ⟨.plant, t "bar", false, false, [], [
      (.ok, [⟨t "bar", [fo "notation-foo" 2 false], none⟩, ⟨t "foo", [fo "notation-foo" 1 true], some (t "2.0.0")⟩]),
      (.downgrade, [⟨t "bar", [fo "notation-foo" 2 true], none⟩, ⟨t "foo", [fo "notation-foo" 1 true], some (t "2.0.0")⟩])] := by
   decide
+
+/-- the installed plugin's files are intact but the private interpreter its `#!` line names has
+disappeared: it stops answering, keeps its files; without overwrite NO version replaces it
+(lower, equal, higher), with overwrite it is replaced -/
+private def exeFooI (v : String) (cid : Nat) : Entry :=
+  ⟨.file, t "notation-foo", true, false, cid, some ⟨t "foo", t v, true, true⟩, []⟩
+private def noInterp : Input :=
+  seq [⟨.install, [], false, false, t "notation-foo", [], false, [exeFooI "2.0.0" 1]⟩,
+       ⟨.rminterp, t "foo", false, false, [], [], false, []⟩,
+       instFile "1.0.0" 2, instFile "2.0.0" 3, instFile "3.0.0" 4, instFile "1.0.0" 5 true]
+example : (run noInterp).steps.map (fun s => (s.err, s.root.map (fun p => (p.files.map (·.cid), p.version)))) =
+    [(.ok, [([1], some (t "2.0.0"))]), (.ok, [([1], none)]), (.other, [([1], none)]), (.other, [([1], none)]),
+     (.other, [([1], none)]), (.ok, [([5], some (t "1.0.0"))])] := by decide
+/-- replacing it without overwrite (what seeded change C20-12 does) violates the rule -/
+example : Holds (seq [⟨.install, [], false, false, t "notation-foo", [], false, [exeFooI "2.0.0" 1]⟩,
+      ⟨.rminterp, t "foo", false, false, [], [], false, []⟩, instFile "1.0.0" 2])
+    ⟨[⟨.ok, none, some (t "2.0.0"), [⟨t "foo", [fo "notation-foo" 1 true false true], some (t "2.0.0")⟩], [t "foo"]⟩,
+      ⟨.ok, none, none, [⟨t "foo", [fo "notation-foo" 1 true false true], none⟩], [t "foo"]⟩,
+      ⟨.ok, none, some (t "1.0.0"), [⟨t "foo", [fo "notation-foo" 2 true], some (t "1.0.0")⟩], [t "foo"]⟩],
+     false, false, none⟩ = false := by decide
 
 /-- a downgrade that "succeeds" violates the version rule clause -/
 example : Holds (seq [instFile "1.1.0" 1, instFile "1.0.0" 2])
